@@ -87,6 +87,12 @@ def gen_instance(rng, profile="mixed", nj=None, nm=None):
         return gen_race(rng)
     if profile == "multibuf":
         return gen_multibuf(rng)
+    if profile == "dep":
+        return gen_dep(rng)
+    if profile == "outstart":
+        d, feats = gen_multibuf(rng, out_start=True)
+        feats["profile"] = "outstart"
+        return d, feats
     if profile == "outs":
         # several outages on the SAME component with different durations and frequencies (they strike together and
         # apart), on machines and on AGVs
@@ -186,6 +192,9 @@ def gen_instance(rng, profile="mixed", nj=None, nm=None):
     tools = ["tl-%d" % k for k in range(ntools)]
     inst["tool_usage"] = [{"job": "j%d" % j, "operation_tools": [rng.choice(tools) for _ in range(nm)]}
                           for j in range(nj)]
+    if rng.random() < 0.5:
+        rng.shuffle(inst["tool_usage"])      # the entries name their job: any order of the list means the same
+        feats["tool_usage_shuffled"] = True
     st = []
     for k in range(nm):
         mat = [[(0 if a == b else rng.randint(0, 4)) for b in range(ntools)] for a in range(ntools)]
@@ -254,9 +263,30 @@ def gen_race(rng):
     return d, feats
 
 
-def gen_multibuf(rng):
+def gen_dep(rng):
+    """Built for time dependencies: every job visits m-0 first, whose ORDERED post-buffer fills up; several AGVs with
+    a small constant travel time, so that AGVs are sent for jobs that are not at the release position while the
+    job in front of them has no AGV yet."""
+    nj = rng.randint(3, 5)
+    routes = [[(0, rng.randint(1, 3)), (1, rng.randint(1, 3))] for _ in range(nj)]
+    names = ["m-0", "m-1", "in-buf", "out-buf"]
+    c = rng.choice([0, 1, 1, 2])
+    mat = [[(0 if a == b else (c if rng.random() < 0.85 else rng.randint(0, 2))) for b in range(4)] for a in range(4)]
+    nagv = rng.randint(2, 4)
+    ic = {"description": "dep", "instance": {"description": "gen", "specification": job_spec_text(routes)},
+          "logistics": {"type": "agv", "amount": nagv, "specification": matrix_text(names, mat)},
+          "machines": {"prebuffer": [{"type": rng.choice(["fifo", "flex_buffer", "lifo"]), "capacity": nj + 1}],
+                       "postbuffer": [{"type": rng.choice(["lifo", "fifo"]), "capacity": nj + 1}]}}
+    d = {"title": "InstanceConfig", "instance_config": ic}
+    feats = {"profile": "dep", "nj": nj, "nm": 2, "routes": routes, "travel": "const", "nagv": nagv,
+             "start_time": 0, "roomy": True, "buffer_mode": "global"}
+    return d, feats
+
+
+def gen_multibuf(rng, out_start=False):
     """Several standalone buffers named in the travel matrix: two input buffers at different distances, jobs
-    spread over them by init_state, one output buffer, AGVs parked at random places."""
+    spread over them by init_state, one output buffer, AGVs parked at random places. out_start: one or two jobs
+    START in the output buffer with all their operations pending (they have to be fetched from there)."""
     nj = rng.randint(2, 4)
     nm = rng.randint(2, 3)
     routes = gen_routes(rng, nj, nm)
@@ -282,9 +312,10 @@ def gen_multibuf(rng):
         ic["buffer"].append({"name": "b-3", "type": "flex_buffer", "capacity": nj + 1})
         stores["b-3"] = []
         places.append("b-3")
+    in_out = set(rng.sample(range(nj), rng.randint(1, min(2, nj - 1)))) if out_start else set()
     for j in range(nj):
-        b = rng.choice(places)
-        stores[b].append("j-%d" % j)
+        b = "b-2" if j in in_out else rng.choice(places)
+        stores.setdefault(b, []).append("j-%d" % j)
         init["j-%d" % j] = {"location": b}
     for b, st in stores.items():
         if st:
